@@ -177,8 +177,8 @@ impl Polyhedron {
                     p0 as u64, p3 as u64, p2 as u64, p1 as u64,
                 ]));
             }
-            let nml = Pt3::new(0.0, -1.0, 0.0).rotated_z(degrees + 180.0);
-            let triangles = triangulate3d_rev(&profile, nml);
+            // the un-rotated profile lies in the XZ plane: triangulate it there
+            let triangles = triangulate3d_rev(&profile, Pt3::new(0.0, -1.0, 0.0));
             for i in (0..triangles.len()).step_by(3) {
                 faces.push(Indices::from_indices(vec![
                     triangles[i] as u64 + (segments * profile_len) as u64,
